@@ -6,15 +6,75 @@ import os
 HERE = os.path.dirname(os.path.abspath(__file__))
 VERIF = os.path.dirname(HERE)
 
+def _c(text, note, technique, ref):
+    return dict(text=text, note=note, technique=technique, ref=ref)
+
+
+_CFG_NOTE = ("trusted: Lean kernel; extract.py (regex/table translation) and the Lean regex semantics; the hand-written model "
+             "ZCV/Model/{Parser,Matcher,Conv,Datatypes}.lean tied to the code by differential correspondence on the generated schema "
+             "family (the schema object itself is tied to the expected elaboration by a structural digest per schema); datatypes "
+             "are assumed pure and ValueError-failing.")
+
 CLAIMED = {
-    "C04": dict(
-        text="Lean 4 theorem C04_substitute_eq_spec: the model of substitute/_split (Python index arithmetic, generated "
-             "_name_match pattern) equals the documented replacement function for every mapping, environment and string; "
-             "tie = regenerated regex term + exhaustive/random correspondence of model, spec and real substitute/isname.",
-        note="trusted: Lean kernel; extract.py regex translation; Lean regex semantics vs CPython sre on the subset; "
-             "List.take/drop/findIdx standing for Python slicing/find; os.getenv = os.environ lookup.",
-        technique="Lean 4 proof (model = spec) + translator-regenerated regex + differential correspondence",
-        ref="§7 C04"),
+    "C01": _c("Theorems about the model of matcher.py/info.py (key routing = declared key else wildcard key; unknown key rejected; "
+              "slot name rule). The full accept<->conforms statement is decided on the generated family by running the real loader "
+              "against the model on every text (accept/reject observable), with shrinking; not yet proved for all schemas x texts.",
+              _CFG_NOTE, "Lean 4 proof (partial: per-function theorems) + differential correspondence model/implementation", "§7 C01"),
+    "C02": _c("Theorem C02_attrs_exact (every section value exposes exactly its type's attributes in schema order, with its type and "
+              "name); value trees of accepted texts compared attribute by attribute with the model's.",
+              _CFG_NOTE, "Lean 4 proof (partial) + differential correspondence on value trees", "§7 C02"),
+    "C03": _c("Theorems C03_keyvalue_rx_spec, C03_section_rx_spec, C03_classify_eq_spec: the generated patterns and the per-line "
+              "dispatch of parse() classify EVERY line exactly as the documented grammar does; nesting checked by exhaustive/random "
+              "texts through a recording context on the real parser.",
+              "trusted: Lean kernel; extract.py; regex semantics; str.strip/lower tables; nesting (stack discipline) validated by correspondence, not yet a theorem.",
+              "Lean 4 proof (model = spec for line classification) + regenerated regexes + exhaustive differential correspondence", "§7 C03"),
+    "C04": _c("Lean 4 theorem C04_substitute_eq_spec: the model of substitute/_split (Python index arithmetic, generated "
+              "_name_match pattern) equals the documented replacement function for every mapping, environment and string; "
+              "tie = regenerated regex term + exhaustive/random correspondence of model, spec and real substitute/isname.",
+              "trusted: Lean kernel; extract.py regex translation; Lean regex semantics vs CPython sre on the subset; "
+              "List.take/drop/findIdx standing for Python slicing/find; os.getenv = os.environ lookup.",
+              "Lean 4 proof (model = spec) + translator-regenerated regex + differential correspondence", "§7 C04"),
+    "C05": _c("Theorems C05_define_ok_iff / C05_define_effect / C05_redefine_keeps_value on the model of handle_define (accepted iff legal "
+              "name, value expands with earlier definitions, name new or equal expanded value; write-once); exhaustive directive "
+              "sequences against a reference fold of the statement, each run twice.",
+              _CFG_NOTE, "Lean 4 proof (define step) + exhaustive sequence enumeration against a reference fold", "§7 C05"),
+    "C06": _c("Real-vs-real metamorphic check (inline text vs the same text with 1..3 balanced ranges cut into %include fragments on a "
+              "scratch tree, nested, three placements) plus model correspondence; theorem(s) on the parser model: a fragment leaving "
+              "a section open is rejected; include = inline for the event stream (when the agent-proved lemma is merged).",
+              _CFG_NOTE + " URL resolution table computed with urllib only.", "Lean 4 proof (partial) + metamorphic real-vs-real + correspondence", "§7 C06"),
+    "C07": _c("Direct oracle: any exception outside the configuration-error family escaping load entry points over mutated texts, "
+              "mutated override lists and include graphs (cyclic included), plus validator status; theorem C07_lineShape_no_internal "
+              "(with the generated directive tuple no line can reach a missing handler).",
+              _CFG_NOTE, "Lean 4 proof (partial) + fault/mutation exploration with the model predicting internal errors", "§7 C07"),
+    "C08": _c("Culprit line known by construction for 15 fault kinds injected into accepted texts; theorems on the model's fix-up sites "
+              "(every error leaving a key line or a closing line carries a line number; the line and URL are the current ones when the "
+              "error brought none).",
+              _CFG_NOTE, "Lean 4 proof (fix-up sites) + fault injection with known culprit", "§7 C08"),
+    "C09": _c("Twelve theorems: the model of each stock conversion (through generated patterns, word tuples, bounds, suffix tables) "
+              "equals its documented contract for ALL strings (basic-key, identifier, dotted-name, dotted-suffix, boolean, port-number, "
+              "byte-size, time-interval, inet-address, socket-address) and key types are idempotent; ipaddr-or-hostname, integer, "
+              "string-list, float acceptance by exhaustive/probe correspondence against contract and model.",
+              "trusted: Lean kernel; extract.py; regex semantics; pyInt/lower/strip models; glibc inet_pton6 re-implementation (compared with socket.inet_pton on every probe).",
+              "Lean 4 proof (model = contract per datatype) + regenerated patterns/tables + exhaustive correspondence", "§7 C09"),
+    "C12": _c("Theorems: an abstract slot admits a concrete type only if it is a recorded implementer; the abstract type itself is "
+              "refused. Statement-level line-by-line reference over generated worlds with packages, histories of 4 loads.",
+              _CFG_NOTE + " package import machinery is outside the model.", "Lean 4 proof (slot admission) + reference-oracle exploration over histories", "§7 C12"),
+    "C13": _c("Theorems: opening/closing sections and adding values never change the schema (only %import does). Histories of up to 8 "
+              "operations against one schema object compared with fresh copies; structural digest after every operation.",
+              _CFG_NOTE, "Lean 4 proof (frame lemmas) + history exploration with structural digest", "§7 C13"),
+    "C14": _c("Theorems on addOption (refused iff no '=' or empty path component; value verbatim). Real load with overrides vs real load "
+              "of the hand-edited text (edit written from the statement) + model correspondence.",
+              _CFG_NOTE, "Lean 4 proof (specifier syntax) + metamorphic real-vs-real (override = edit)", "§7 C14"),
+    "C15": _c("Theorems C15_strip_invariant (any str.isspace padding), C15_empty_form_equiv (<t/> = <t></t> for every context). "
+              "Canonical vs randomly re-laid-out rendering of the same item tree, real vs real, incl. shipped components.",
+              _CFG_NOTE, "Lean 4 proof (strip / empty-form invariance) + metamorphic real-vs-real", "§7 C15"),
+    "C16": _c("Theorem C16_stop_appends_own_entries (closing a section appends exactly its own handler entries in schema order after all "
+              "earlier ones). Reference post-order from text + value tree; complete / None / incomplete / duplicate maps.",
+              _CFG_NOTE, "Lean 4 proof (append order) + reference post-order oracle", "§7 C16"),
+    "C17": _c("Theorems C17_value_roundtrip (str() doubles '$'; re-reading gives the value back for every value), C17_define_refused. "
+              "load/str/reload/str on the real code and on the model over the C03 corpus + hard cases.",
+              "trusted: Lean kernel; model ZCV/Model/Schemaless.lean tied by correspondence (tree and str() output compared exactly).",
+              "Lean 4 proof (value round trip) + round-trip exploration with model correspondence", "§7 C17"),
 }
 
 NOT_YET = {}
